@@ -1,5 +1,6 @@
 import ChythonModel.Proofs.C07Complete
 import ChythonModel.Proofs.C07WF
+import ChythonModel.Proofs.C07Product
 /-!
 # C07 — substructure search returns exactly the set of valid embeddings
 
@@ -151,6 +152,32 @@ theorem filter_one_per_image_set (ms : List Dict) :
   rcases h4 m hm with ⟨k, hk, _⟩ | h
   · simp at hk
   · exact h
+
+/-! ## `lazy_product` and `itertools.permutations` (component assignment of multi-component patterns) -/
+
+/-- **`lazyProduct_exact`**: `lazy_product(*args)` yields a rearrangement of the cartesian product — every combination (by
+    position) exactly once — and yields nothing iff some factor is empty. -/
+theorem lazyProduct_exact {α : Type} (args : List (List α)) :
+    (lazyProduct args).Perm (cartesian args) ∧ (lazyProduct args = [] ↔ ∃ a ∈ args, a = []) := by
+  have hp := lazyProduct_perm args
+  refine ⟨hp, ?_⟩
+  rw [← cartesian_eq_nil_iff]
+  constructor
+  · intro h; rw [h] at hp; exact List.Perm.eq_nil hp.symm
+  · intro h; rw [h] at hp; exact List.Perm.eq_nil hp
+
+/-- the tuples of the cartesian product are exactly the position-wise selections -/
+theorem cartesian_exact {α : Type} (args : List (List α)) (x : List α) :
+    x ∈ cartesian args ↔ List.Forall₂ (· ∈ ·) x args := mem_cartesian args x
+
+/-- **`permutations_exact`**: `permutations(l, r)` of distinct items = every duplicate-free length-`r` sequence over `l`,
+    each exactly once (distinct pattern components get distinct target components, every assignment is tried once). -/
+theorem permutations_exact {α : Type} [DecidableEq α] (l : List α) (hl : l.Nodup) (r : Nat) :
+    (∀ p, p ∈ permutations l r ↔ (p.length = r ∧ p.Nodup ∧ ∀ x ∈ p, x ∈ l)) ∧ (permutations l r).Nodup :=
+  permutations_spec r l hl
+
+example : lazyProduct [[1, 2, 3], [10, 20]] = [[1, 10], [2, 20], [3, 20], [1, 20], [2, 10], [3, 10]] := by decide
+example : permutations [1, 2, 3] 2 = [[1, 2], [1, 3], [2, 1], [2, 3], [3, 1], [3, 2]] := by decide
 
 /-! ## operators -/
 
